@@ -126,6 +126,18 @@ func shrinkOpsStrings(p Plan, get func(*Plan) []Op, set func(*Plan, []Op), pred 
 				ops[i].B = QS(res)
 			}
 		}
+		// simpler operation of the same family: a resolution whose result does not depend on its base
+		// becomes a plain parse (which lets ddmin drop the chain that led to the base)
+		if ops[i].K == "resolve" && *budget > 0 {
+			cand := cloneOps(ops)
+			cand[i] = Op{K: "parse", P: ops[i].P, D: ops[i].D, A: ops[i].A}
+			cp := p
+			set(&cp, cand)
+			*budget--
+			if pred(&cp) {
+				ops = cand
+			}
+		}
 		// simpler variants: getter mask -> all, iterate mode -> 0
 		if ops[i].K == "obs" && ops[i].W != 0 && *budget > 0 {
 			cand := cloneOps(ops)
